@@ -285,7 +285,7 @@ def run_check(pid, tier, seed):
     wall = time.time() - t0
     obligations = len(theorems) + len(ctx.ops)
     discharged = len(proof['ok']) + sum(1 for o in ctx.ops.values() if o[1] == 0)
-    level = getattr(mod, 'LEVEL', 'proof')
+    level = getattr(mod, 'LEVEL', 'proof') if theorems else 'translation_validation'
     ev = {
         'property_id': pid, 'tier': tier, 'seed': seed, 'level': level,
         'coverage': {
@@ -298,6 +298,7 @@ def run_check(pid, tier, seed):
             'theorems_broken': [b[0] for b in proof['broken']],
             'correspondence_ops': {k: {'compared': v[0], 'disagreed': v[1]} for k, v in ctx.ops.items()},
             'evaluations': ctx.evaluations, 'distinct_nontrivial': len(ctx.nontrivial),
+            'programs': ctx.evaluations, 'disagreements_checked': sum(o[1] for o in ctx.ops.values()),
             'rule': getattr(mod, 'RULE', ''), 'samples': ctx.samples or ['(none)'],
             'input_distribution': ctx.dist, 'exhaustive': ctx.exhaustive,
             'known_findings_hit': sorted(seen_known), 'notes': ctx.notes,
